@@ -1,5 +1,5 @@
 (* PV.C19.Proofs — lemmas behind Properties.v *)
-From Coq Require Import QArith ZArith List Bool PArith Arith Lia Lqa Permutation Sorted.
+From Coq Require Import QArith ZArith List Bool PArith Arith Lia Lqa Permutation Sorted Qabs.
 From PV Require Import C19.Model C19.Spec.
 Import ListNotations.
 Local Open Scope nat_scope.
@@ -983,97 +983,55 @@ Proof. unfold uses. cbn [used]. apply existsb_app. Qed.
 Lemma uses_or a b n : uses (SOr a b) n = uses a n || uses b n.
 Proof. unfold uses. cbn [used]. apply existsb_app. Qed.
 
-Definition round_agree (ps : list param) (l : list (id * Q)) : Prop :=
-  forall nv, In nv l ->
-    match find (fun p => Pos.eqb (p_name p) (fst nv)) ps with
-    | Some p => close_to_bound p (snd nv) = close_to_bound_spec p (snd nv)
-    | None => True
-    end.
-
-Lemma near_bounds_any_agree ps l : round_agree ps l -> near_bounds_any ps l = near_bounds_any_spec ps l.
+Lemma py_round_sig2_eq x : py_round_sig2 x = round53 (round_sig2 x).
 Proof.
-  unfold near_bounds_any, near_bounds_any_spec.
-  induction l as [|[n v] tl IH]; intro H; [reflexivity|]. cbn [near_bounds_any_gen].
-  pose proof (H (n, v) (or_introl eq_refl)) as H0. cbn [fst snd] in H0.
+  unfold py_round_sig2, round_sig2. destruct (Qeq_bool x 0); reflexivity.
+Qed.
+
+Lemma near_target_spec_eq x b : near_target x b = spec_near_bound x b.
+Proof.
+  unfold near_target, spec_near_bound. rewrite !py_round_sig2_eq.
+  change (Qabs zero_limit) with zero_limit. reflexivity.
+Qed.
+
+Lemma near_bounds_any_spec_eq ps l : near_bounds_any ps l = spec_near_any ps l.
+Proof.
+  unfold spec_near_any. induction l as [|[n v] tl IH]; [reflexivity|]. cbn [near_bounds_any].
   destruct (find (fun p => Pos.eqb (p_name p) n) ps) as [p|]; [|reflexivity].
-  rewrite IH by (intros x Hx; apply H; right; exact Hx).
-  unfold close_to_bound, close_to_bound_spec in H0. rewrite H0. reflexivity.
+  rewrite IH. unfold close_to_bound.
+  destruct (p_lower p), (p_upper p); rewrite ?near_target_spec_eq; reflexivity.
 Qed.
 
-Lemma round_agree_rows ps k l : round_agree ps l -> round_agree ps (rows_of ps k l).
-Proof. intros H nv Hin. apply H. unfold rows_of in Hin. apply filter_In in Hin. apply Hin. Qed.
-
-Lemma uses_enb_and a b : uses_enb_any (SAnd a b) = uses_enb_any a || uses_enb_any b.
-Proof. unfold uses_enb_any. rewrite !uses_and. repeat (destruct (uses _ _)); reflexivity. Qed.
-Lemma uses_enb_or a b : uses_enb_any (SOr a b) = uses_enb_any a || uses_enb_any b.
-Proof. unfold uses_enb_any. rewrite !uses_or. repeat (destruct (uses _ _)); reflexivity. Qed.
-
-Lemma seval_spec rebound ps r e :
-  (rebound = true -> uses e S_rse = false) ->
-  (uses e S_fzg_omega = true ->
-     any_null (rows_of ps is_theta (olist (r_grad r))) = any_null (rows_of ps is_omega (olist (r_grad r)))) ->
-  (uses e S_fzg_sigma = true ->
-     any_null (rows_of ps is_theta (olist (r_grad r))) = any_null (rows_of ps is_sigma (olist (r_grad r)))) ->
-  (uses_enb_any e = true -> round_agree ps (olist (r_est r))) ->
-  seval rebound ps r e = spec_seval ps r e.
+Lemma zero_or_nan_eq ps k r :
+  any_zero (rows_of ps k (olist (r_grad r))) || any_null (rows_of ps k (olist (r_grad r))) = zero_or_nan_gradient ps k r.
 Proof.
-  induction e as [n|n op v|a IH|a IHa b IHb|a IHa b IHb]; intros HR HO HS HE.
-  - cbn [seval spec_seval]. unfold uses in HO, HS. cbn [used existsb] in HO, HS.
-    unfold uses_enb_any, uses in HE. cbn [used existsb] in HE.
-    destruct n; try reflexivity; cbn [sname_eqb orb] in HO, HS, HE; cbn [bool_value spec_bool_value].
-    + rewrite (HO eq_refl). reflexivity.
-    + rewrite (HS eq_refl). reflexivity.
-    + apply near_bounds_any_agree. apply HE. reflexivity.
-    + apply near_bounds_any_agree. apply round_agree_rows. apply HE. reflexivity.
-    + apply near_bounds_any_agree. apply round_agree_rows. apply HE. reflexivity.
-    + apply near_bounds_any_agree. apply round_agree_rows. apply HE. reflexivity.
-  - cbn [seval spec_seval]. destruct rebound; [|reflexivity].
-    specialize (HR eq_refl). unfold uses in HR. cbn [used existsb] in HR.
-    destruct n; cbn [sname_eqb orb andb] in *; try reflexivity; discriminate.
-  - cbn [seval spec_seval]. rewrite IH; [reflexivity|exact HR|exact HO|exact HS|exact HE].
-  - cbn [seval spec_seval]. rewrite uses_and in HO, HS. rewrite uses_enb_and in HE.
-    assert (HRa : rebound = true -> uses a S_rse = false /\ uses b S_rse = false).
-    { intro X. specialize (HR X). rewrite uses_and in HR. apply orb_false_iff in HR. exact HR. }
-    rewrite IHa, IHb; try reflexivity.
-    + intro X. apply HRa. exact X.
-    + intro X. apply HO. rewrite X. apply orb_true_r.
-    + intro X. apply HS. rewrite X. apply orb_true_r.
-    + intro X. apply HE. rewrite X. apply orb_true_r.
-    + intro X. apply HRa. exact X.
-    + intro X. apply HO. rewrite X. reflexivity.
-    + intro X. apply HS. rewrite X. reflexivity.
-    + intro X. apply HE. rewrite X. reflexivity.
-  - cbn [seval spec_seval]. rewrite uses_or in HO, HS. rewrite uses_enb_or in HE.
-    assert (HRa : rebound = true -> uses a S_rse = false /\ uses b S_rse = false).
-    { intro X. specialize (HR X). rewrite uses_or in HR. apply orb_false_iff in HR. exact HR. }
-    rewrite IHa, IHb; try reflexivity.
-    + intro X. apply HRa. exact X.
-    + intro X. apply HO. rewrite X. apply orb_true_r.
-    + intro X. apply HS. rewrite X. apply orb_true_r.
-    + intro X. apply HE. rewrite X. apply orb_true_r.
-    + intro X. apply HRa. exact X.
-    + intro X. apply HO. rewrite X. reflexivity.
-    + intro X. apply HS. rewrite X. reflexivity.
-    + intro X. apply HE. rewrite X. reflexivity.
+  unfold zero_or_nan_gradient, any_zero, any_null. generalize (rows_of ps k (olist (r_grad r))). intro l.
+  induction l as [|row tl IH]; [reflexivity|]. cbn [existsb]. rewrite <- IH.
+  destruct (snd row) as [x|]; [destruct (Qeq_bool x 0)|]; cbn [orb];
+    repeat match goal with |- context [existsb ?f tl] => destruct (existsb f tl) end; reflexivity.
 Qed.
 
-Lemma strictness_eval_sound_lemma e c :
-  g_rse_not_rebound e = true -> g_grad_nan_rows e c = true -> g_near_round e c = true ->
-  is_strictness_fulfilled (StExpr e) c = spec_strictness (StExpr e) c.
+Lemma bool_value_spec ps r n : bool_value ps r n = spec_bool_value ps r n.
 Proof.
-  intros G1 G2 G4. unfold is_strictness_fulfilled, spec_strictness.
-  destruct (c_ofv c); [|reflexivity].
-  destruct (setup_error e (c_res c)); [reflexivity|].
-  unfold g_rse_not_rebound in G1. apply negb_true_iff in G1.
-  unfold g_grad_nan_rows in G2. apply andb_true_iff in G2. destruct G2 as [G2 G3].
-  apply seval_spec.
-  - intro X. rewrite X, andb_true_r in G1. exact G1.
-  - intro X. rewrite X in G2. cbn [negb orb] in G2. apply eqb_prop. exact G2.
-  - intro X. rewrite X in G3. cbn [negb orb] in G3. apply eqb_prop. exact G3.
-  - intro X. unfold g_near_round in G4. rewrite X in G4. cbn [negb orb] in G4.
-    rewrite forallb_forall in G4. intros nv Hin. specialize (G4 nv Hin). cbn beta in G4. unfold id in *.
-    destruct (find (fun p => Pos.eqb (p_name p) (fst nv)) (c_params c)) eqn:EF; [|exact I].
-    apply eqb_prop. exact G4.
+  destruct n; cbn [bool_value spec_bool_value]; try reflexivity;
+    try (rewrite zero_or_nan_eq; reflexivity); apply near_bounds_any_spec_eq.
+Qed.
+
+Lemma seval_spec ps r e : seval ps r e = spec_seval ps r e.
+Proof.
+  induction e as [n|n op v|a IH|a IHa b IHb|a IHa b IHb]; cbn [seval spec_seval].
+  - apply bool_value_spec.
+  - reflexivity.
+  - rewrite IH. reflexivity.
+  - rewrite IHa, IHb. reflexivity.
+  - rewrite IHa, IHb. reflexivity.
+Qed.
+
+Lemma strictness_eval_sound_lemma s c : is_strictness_fulfilled s c = spec_strictness s c.
+Proof.
+  unfold is_strictness_fulfilled, spec_strictness.
+  destruct (c_ofv c); [|reflexivity]. destruct s as [|e|]; try reflexivity.
+  destruct (setup_error e (c_res c)); [reflexivity|]. apply seval_spec.
 Qed.
 
 Lemma strictness_nan_lemma s c : c_ofv c = None -> is_strictness_fulfilled s c = Ok false.
@@ -1410,4 +1368,42 @@ Lemma bic_mixed_over_categorize_lemma logf c m o :
            + natQ (length (normp (fst (categorize m)))) * logf (c_nobs c)))%Q.
 Proof.
   intros H1 H2. unfold calculate_bic, bic_penalty. rewrite H1, H2. reflexivity.
+Qed.
+
+(* ---------- comparing the rounded decimals as doubles is comparing the decimals (bounded domain, by computation) *)
+Fixpoint zrange (lo : Z) (n : nat) : list Z := match n with O => [] | S k => lo :: zrange (lo + 1)%Z k end.
+Definition sig2_decimals_list : list Q :=
+  flat_map (fun e => map (fun m => (inject_Z m * Qpower 10 e)%Q) (zrange 10 90)) (zrange (-15) 31).
+Fixpoint incr (l : list Q) : bool :=
+  match l with
+  | a :: ((b :: _) as tl) => Qlt_bool a b && incr tl
+  | _ => true
+  end.
+
+Lemma incr_sorted l : incr l = true -> StronglySorted Qlt l.
+Proof.
+  induction l as [|a tl IH]; intro H; [constructor|].
+  destruct tl as [|b tl']; [constructor; constructor|].
+  cbn [incr] in H. apply andb_true_iff in H. destruct H as [H1 H2]. apply Qlt_bool_iff in H1.
+  specialize (IH H2). constructor; [exact IH|].
+  inversion IH as [|? ? S F]; subst. constructor; [exact H1|].
+  rewrite Forall_forall in *. intros y Hy. specialize (F y Hy). lra.
+Qed.
+
+Lemma sorted_map_injective (f : Q -> Q) l :
+  StronglySorted Qlt (map f l) -> forall a b, In a l -> In b l -> (f a == f b)%Q -> a = b.
+Proof.
+  induction l as [|x tl IH]; intros S a b Ha Hb E; [contradiction|].
+  cbn [map] in S. inversion S as [|? ? S' F]; subst. rewrite Forall_forall in F.
+  destruct Ha as [<-|Ha], Hb as [<-|Hb].
+  - reflexivity.
+  - exfalso. assert (f x < f b)%Q by (apply F, in_map, Hb). lra.
+  - exfalso. assert (f x < f a)%Q by (apply F, in_map, Ha). lra.
+  - apply IH; assumption.
+Qed.
+
+Lemma round53_separates_lemma :
+  forall a b, In a sig2_decimals_list -> In b sig2_decimals_list -> (round53 a == round53 b)%Q -> a = b.
+Proof.
+  apply sorted_map_injective. apply incr_sorted. vm_compute. reflexivity.
 Qed.
